@@ -626,5 +626,16 @@ def r12(rr, repo):
         inf = U(dflt).replace('"', "'") in ("float('inf')", 'math.inf', 'inf', 'None')
         rr.ob('without an explicit outputs_timeout the wait for the outputs is unbounded', inf, mod, n, witness=f'default: {U(dflt)}', key='outputs-timeout-default')
     _, lo = repo.find(f'{FIL}::Filter.loop_once')
+    # the send wait gives a frame up only when that budget is used up: its `break` sits under `(budget := budget - interval) <= 0`, in the positive sense
+    waits = [n for n in walk_scope(lo) if isinstance(n, ast.While) and 'self.mq.send(' in U(n.test)]
+    rr.floor('send wait loops in loop_once', len(waits), 1, mod, lo)
+    for w in waits:
+        outs = [n for n in ast.walk(w) if isinstance(n, (ast.Break, ast.Return))]
+        for b in outs:
+            g = q.effective_guards(b, w)
+            budget = [(t, p) for t, p in g if 'outputs_timeout' in t]
+            okb = len(budget) == 1 and budget[0][1] is True and isinstance(ast.parse(budget[0][0], mode='eval').body, ast.Compare) and budget[0][0].replace(' ', '').endswith('<=0') and \
+                '-POLL_TIMEOUT_MS' in budget[0][0].replace(' ', '') and len(g) == 1
+            rr.ob('the send wait is left without sending only when the outputs budget is used up', okb, mod, b, witness=str(g)[:160], key='send-wait-gives-up-only-on-budget')
     loc = [n for n in walk_scope(lo) if isinstance(n, ast.Assign) and U(n.targets[0]) == 'outputs_timeout']
     rr.ob('loop_once takes its send budget from that value', bool(loc) and all(U(n.value) == 'self.outputs_timeout' for n in loc), mod, loc[0] if loc else lo, witness=U(loc[0])[:60] if loc else 'no local', key='outputs-timeout-used')
